@@ -67,6 +67,16 @@ def configs(tier):
         s = A.to_spec(A._b(crop="maize.2", win="w2", word="mix", irr="smt", iwc="Pct50"))
         s["crop"]["kw"] = dict(s["crop"].get("kw") or {}, **kw)
         C["cropopt_" + k] = s
+    # user objects holding numpy arrays (a function that converts with np.asarray gets the user's own array back)
+    for nm, iw in (("iwc_pct_array", {"wc_type": "Pct", "method": "Layer", "depth_layer": [1], "value": [60.0]}),
+                   ("iwc_num_depth_array", {"wc_type": "Num", "method": "Depth", "depth_layer": [0.0, 0.6, 1.5], "value": [0.18, 0.25, 0.3]}),
+                   ("iwc_pct_depth_array", {"wc_type": "Pct", "method": "Depth", "depth_layer": [0.1, 1.0], "value": [40.0, 90.0]})):
+        s = A.to_spec(A._b(crop="maize.2", win="w2", word="normal"))
+        s["iwc"] = dict(iw, as_array=True)
+        C[nm] = s
+    s = A.to_spec(A._b(crop="maize.2", win="w2", word="dry", irr="smt", iwc="WP"))
+    s["numpy_inputs"] = True
+    C["numpy_settings"] = s
     s = A.catalogue_spec("Maize", word="hot", end="2003/04/20", cropkw={"SwitchGDD": 1})
     s["crop"]["harvest"] = "09/30"
     C["switchgdd_explicit_harvest"] = s
